@@ -172,6 +172,7 @@ fn main() {
             "C08" => vharness::checks::c08::run(tier),
             "C09" => vharness::checks::c09::run(tier),
             "C10" => vharness::checks::c10::run(tier),
+            "C11" => vharness::checks::c11::run(tier),
             "C12" => vharness::checks::c12::run(tier),
             "C13" => vharness::checks::c13::run(tier),
             "C14" => vharness::checks::c14::run(tier),
